@@ -454,6 +454,21 @@ func registerRegexp(P *Program) {
 		}
 		return re(it, a[0]).MatchString(s)
 	})
+	P.reg("(*regexp.Regexp).FindStringSubmatch", func(it *Interp, a []Value) Value {
+		s, ok := a[1].(string)
+		if !ok || strings.Contains(s, symStrMark) {
+			panic(unsupported("regexp match on non-constant string"))
+		}
+		parts := re(it, a[0]).FindStringSubmatch(s)
+		if parts == nil {
+			return &SliceV{}
+		}
+		arr := &ArrayV{Elems: make([]Value, len(parts))}
+		for i, p := range parts {
+			arr.Elems[i] = p
+		}
+		return &SliceV{Arr: it.newCell(arr, "submatch"), Len: len(parts), Cap: len(parts)}
+	})
 	P.reg("(*regexp.Regexp).Match", func(it *Interp, a []Value) Value {
 		return re(it, a[0]).Match(it.concBytes(a[1]))
 	})
